@@ -69,6 +69,14 @@ def smooth_axis_monotone(data, window=15, max_iter=1000):
                 # abort
                 break
 
+        # The next differing value may be so close to the equal values
+        # (a few ULP) that the increments below vanish in floating point
+        # arithmetic: include it in the interpolation.
+        while (equal and equal[-1] + 2 < smooth.size
+               and abs(smooth[equal[-1]+1] - smooth[equal[0]])
+               < 2 * (len(equal) + 5) * np.spacing(abs(smooth[equal[0]]))):
+            equal.append(equal[-1] + 1)
+
         for count, idx in enumerate(equal):
             try:
                 smooth[idx] += (smooth[equal[-1]+1] -
